@@ -512,6 +512,18 @@ func (w *c15Walker) expr(e ast.Expr, exit bool) {
 			w.expr(x.Fun, exit)
 		}
 		callee := w.resolve(recvX, name)
+		if sel, ok := recvX.(*ast.SelectorExpr); ok && c15ExprClass(w.fn, sel.X) == "File" {
+			// hand-assigned footprint: a part list kept in a sync.Map of File (check-then-act on it
+			// needs a lock although every single map operation is atomic)
+			if loc, ok := c15PartLists[w.fn.key][sel.Sel.Name]; ok {
+				switch name {
+				case "Store", "Delete", "LoadOrStore", "LoadAndDelete", "Swap":
+					w.emit("wr", loc, exit)
+				default:
+					w.emit("rd", loc, exit)
+				}
+			}
+		}
 		if id, ok := recvX.(*ast.Ident); ok && callee == nil && id.Name == "xml" && w.fn.imps["xml"] {
 			// xml.Marshal(ws) / Unmarshal: the whole shared object is read
 			for _, a := range x.Args {
@@ -636,6 +648,17 @@ func (w *c15Walker) resolve(recvX ast.Expr, name string) *c15Fn {
 // c15Stop: subsystems that are reachable (GetPictures -> getCellImages -> DISPIMG / rich-value lookups, CalcCellValue for
 // DISPIMG cells) but outside the modelled scope: calls to them are listed, not followed.
 var c15Stop = map[string]bool{"CalcCellValue": true, "calcCellValue": true, "getDispImages": true, "getImageCellRel": true}
+
+// c15PartLists: function -> sync.Map field of File -> location class. The package parts of
+// one kind (xl/media/imageN.*, xl/drawings/drawingN.xml) form a list whose next free number is
+// computed by scanning it; the functions that scan and extend such a list are named here
+// (sync.Map operations elsewhere are treated as atomic and not tracked).
+var c15PartLists = map[string]map[string]string{
+	"countMedia":    {"Pkg": "File.mediaParts"},
+	"addMedia":      {"Pkg": "File.mediaParts"},
+	"countDrawings": {"Pkg": "File.drawingParts", "Drawings": "File.drawingParts"},
+	"drawingLoader": {"Pkg": "File.drawingParts", "Drawings": "File.drawingParts"},
+}
 
 // methods of the iterators returned by the documented Rows / Cols: part of using them
 var c15IterMethods = []string{"Rows.Next", "Rows.Columns", "Rows.Close", "Cols.Next", "Cols.Rows"}
